@@ -121,7 +121,12 @@ class RenderContext:
         """Resolve the variable _path_ in the current namespace."""
         it = iter(path)
         root = next(it)
-        assert isinstance(root, str)
+        if not isinstance(root, str):
+            # A path starting with an index, like `[0]`, does not name a variable.
+            if default == UNDEFINED:
+                hint = f"{root!r} is undefined"
+                return self.env.undefined(str(root), hint=hint, token=token)
+            return default
 
         try:
             obj = self.scope[root]
@@ -157,7 +162,12 @@ class RenderContext:
         """Asynchronously resolve the variable _path_ in the current namespace."""
         it = iter(path)
         root = next(it)
-        assert isinstance(root, str)
+        if not isinstance(root, str):
+            # A path starting with an index, like `[0]`, does not name a variable.
+            if default == UNDEFINED:
+                hint = f"{root!r} is undefined"
+                return self.env.undefined(str(root), hint=hint, token=token)
+            return default
 
         try:
             obj = self.scope[root]
